@@ -12,6 +12,7 @@ namespace {
 std::string fontdir, stagedir;
 std::string file_of(const std::string &kind) {
     if (kind == "name1") return stagedir + "/facelife_name1.ttf";      // written by stage_files()
+    if (kind == "underflow") return fontdir + "/underflow.ttf";        // shaping "baaaaaab" is refused at run time: the call returns NULL
     return fontdir + (kind == "compressed" || kind == "badlz4" || kind == "badlz4s" ? "/Awami_compressed_test.ttf" : kind == "awami" ? "/AwamiNastaliq-Regular.ttf" : "/Padauk.ttf");
 }
 bool prepare(TableFace &tf, const std::string &kind) {
@@ -23,7 +24,7 @@ bool prepare(TableFace &tf, const std::string &kind) {
         tf.tables[tagof("name")] = n;
         return true;
     }
-    if (kind == "compressed" || kind == "awami") return true;
+    if (kind == "compressed" || kind == "awami" || kind == "underflow") return true;
     if (kind == "badlz4" || kind == "badlz4s") {      // the compressed Glat / Silf payload is damaged: decompression fails
         std::vector<uint8_t> t = tf.tables[tagof(kind == "badlz4" ? "Glat" : "Silf")];
         for (size_t i = t.size() / 3; i < t.size() / 3 + 24 && i < t.size(); ++i) t[i] = 0xFF;
@@ -90,6 +91,7 @@ bool stage_files() {
     return ok;
 }
 std::vector<std::string> texts_padauk, texts_awami;
+const std::vector<std::string> texts_underflow = {"baaaaaab", "ab", "baab", "baaaaaab b", "a", "bab", "baaaaaab", "abba"};
 std::vector<std::string> read_lines(const std::string &p) { std::vector<std::string> r; std::string d = slurp(p), cur; for (char c : d) { if (c == '\n') { if (!cur.empty()) r.push_back(cur); cur.clear(); } else cur += c; } if (!cur.empty()) r.push_back(cur); return r; }
 uint64_t fnv(const std::string &s) { uint64_t h = 1469598103934665603ULL; for (unsigned char c : s) { h ^= c; h *= 1099511628211ULL; } return h; }
 std::string self_report(const gr_face *face) {
@@ -147,9 +149,9 @@ GRV_CMD(facelife) {
                 else fprintf(tr, "{\"e\":\"Rel\",\"buf\":%d}\n", e.buf);
             }
         };
-        gr_face *face = 0; std::vector<gr_font *> fonts; std::vector<gr_segment *> segs; std::vector<gr_feature_val *> fvals;
+        gr_face *face = 0; std::vector<gr_font *> fonts; std::vector<gr_segment *> segs; std::vector<gr_feature_val *> fvals; std::vector<long> fvlang;
         std::vector<std::string> segkeys; std::vector<float> fontppm;
-        fonts.reserve(8); segs.reserve(8); fvals.reserve(8); segkeys.reserve(8); fontppm.reserve(8);
+        fonts.reserve(8); segs.reserve(8); fvals.reserve(8); fvlang.reserve(8); segkeys.reserve(8); fontppm.reserve(8);
         const size_t mem0 = &__sanitizer_get_current_allocated_bytes ? __sanitizer_get_current_allocated_bytes() : 0;
         const bool awami = kind == "compressed" || kind == "awami";
         for (auto &o : (*v)["hist"].a) {
@@ -178,28 +180,36 @@ GRV_CMD(facelife) {
                 (void)sink;
                 h = std::to_string(fnv(self_report(face))); key = "self";
             }
-            else if (op == "featval") fvals.push_back(gr_face_featureval_for_lang(face, 0));
-            else if (op == "destroy_fval") { gr_featureval_destroy(fvals.back()); fvals.pop_back(); }
+            else if (op == "featval") {     // argument 0: the font's defaults; 1: the settings of the first language the font lists
+                const gr_uint32 lg = arg && gr_face_n_languages(face) ? gr_face_lang_by_index(face, 0) : 0;
+                fvals.push_back(gr_face_featureval_for_lang(face, lg)); fvlang.push_back(lg ? 1 : 0);
+                std::string rep;
+                for (unsigned q = 0; q < gr_face_n_fref(face); ++q) rep += std::to_string(gr_fref_feature_value(gr_face_fref(face, gr_uint16(q)), fvals.back())) + ",";
+                h = std::to_string(fnv(rep)); key = "fv" + std::to_string(fvlang.back());
+            }
+            else if (op == "destroy_fval") { gr_featureval_destroy(fvals.back()); fvals.pop_back(); fvlang.pop_back(); }
             else if (op == "make_font") { const float ppm = arg ? float(arg) : 16.5f; gr_font *gf = gr_make_font(ppm, face); fonts.push_back(gf); fontppm.push_back(ppm); ok = gf != 0; }
             else if (op == "destroy_font") { gr_font_destroy(fonts.back()); fonts.pop_back(); fontppm.pop_back(); }
             else if (op == "make_seg") {
-                const std::string &t = awami ? texts_awami[size_t(arg) % texts_awami.size()] : texts_padauk[size_t(arg) % texts_padauk.size()];
+                const std::vector<std::string> &tl = kind == "underflow" ? texts_underflow : awami ? texts_awami : texts_padauk;
+                const std::string &t = tl[size_t(arg) % tl.size()];
                 const size_t nch = gr_count_unicode_characters(gr_utf8, t.data(), t.data() + t.size(), 0);
                 GRV_WATCHDOG;
                 gr_segment *s = gr_make_seg(fonts.empty() ? 0 : fonts.back(), face, 0, fvals.empty() ? 0 : fvals.back(), gr_utf8, t.data(), nch, awami ? 1 : 0);
                 segs.push_back(s); ok = s != 0;
-                key = "t" + std::to_string(size_t(arg) % (awami ? texts_awami.size() : texts_padauk.size())) + ":p" + std::to_string(fonts.empty() ? 0 : int(fontppm.back() * 10));
+                key = "t" + std::to_string(size_t(arg) % tl.size()) + ":p" + std::to_string(fonts.empty() ? 0 : int(fontppm.back() * 10)) + (!fvlang.empty() && fvlang.back() ? ":lang" : "");
                 segkeys.push_back(key);
                 SegP p = project(s, face, fonts.empty() ? 0 : fonts.back(), kind != "badglyph");
                 if (!p.wf.empty()) { vj::W w; w.str("kind", kind).i("text", arg); report_fail(p.wfprop.c_str(), p.wf, w.done()); }
                 h = std::to_string(fnv(dump(p)));
             }
             else if (op == "shape") {
-                const std::string &t = awami ? texts_awami[size_t(arg) % texts_awami.size()] : texts_padauk[size_t(arg) % texts_padauk.size()];
+                const std::vector<std::string> &tl = kind == "underflow" ? texts_underflow : awami ? texts_awami : texts_padauk;
+                const std::string &t = tl[size_t(arg) % tl.size()];
                 const size_t nch = gr_count_unicode_characters(gr_utf8, t.data(), t.data() + t.size(), 0);
                 GRV_WATCHDOG;
                 gr_segment *s = gr_make_seg(fonts.empty() ? 0 : fonts.back(), face, 0, 0, gr_utf8, t.data(), nch, awami ? 1 : 0);
-                key = "t" + std::to_string(size_t(arg) % (awami ? texts_awami.size() : texts_padauk.size())) + ":p" + std::to_string(fonts.empty() ? 0 : int(fontppm.back() * 10));
+                key = "t" + std::to_string(size_t(arg) % tl.size()) + ":p" + std::to_string(fonts.empty() ? 0 : int(fontppm.back() * 10));
                 SegP p = project(s, face, fonts.empty() ? 0 : fonts.back(), kind != "badglyph");
                 if (!p.wf.empty()) { vj::W w; w.str("kind", kind).i("text", arg); report_fail(p.wfprop.c_str(), p.wf, w.done()); }
                 h = std::to_string(fnv(dump(p)));
